@@ -248,6 +248,13 @@ func checkLzmaWriter(prop string) func(a *checkArgs, r *Result) error {
 			}(i, cs)
 		}
 		wg.Wait()
+		nscript := 600
+		if a.tier == "thorough" {
+			nscript = 10000
+		}
+		if err := scriptedOpsTie(r, dp, rng, nscript, prop == "C07"); err != nil {
+			return err
+		}
 		if prop == "C06" {
 			sizeContract(r, rng, 120)
 		} else {
